@@ -51,6 +51,8 @@ var premiseTable = []premiseRow{
 	{"protocol.RoutingHeader", "len($.Data.Buffer.Bytes())", func() *Term {
 		return ValOf("$.HEL").AddC(1).Scale(8).AddC(-4)
 	}, "HEL is the header length in 8-byte units minus one; the type-specific data fills it"},
+	{"protocol.DHCP", "ite(253<len($.Options[*].data) ? -2 : len($.Options[*].data))", func() *Term { return LenOf("$.Options[*].data") },
+		"an option value longer than 253 octets makes DHCPMarshalOption return an error and the encoder fail: where an encoding exists, every option has at most 253 octets of data"},
 	{"protocol.IGMPv3Query", "len($.SourceAddresses)", func() *Term { return ValOf("$.NumberOfSources") },
 		"NumberOfSources counts SourceAddresses (NewIGMPv3Query sets it so)"},
 	{"protocol.IGMPv3GroupRecord", "len($.SourceAddresses)", func() *Term { return ValOf("$.NumberOfSources") },
@@ -102,12 +104,14 @@ var reviewedFacts = map[string]map[string]string{
 	"openflow13.DescStats": {
 		"len($.MfrDesc)=256": "ofp_desc.mfr_desc is DESC_STR_LEN = 256 bytes", "len($.HWDesc)=256": "ofp_desc.hw_desc 256 bytes",
 		"len($.SWDesc)=256": "ofp_desc.sw_desc 256 bytes", "len($.SerialNum)=32": "ofp_desc.serial_num SERIAL_NUM_LEN = 32", "len($.DPDesc)=256": "ofp_desc.dp_desc 256 bytes"},
-	"openflow13.PhyPort":         {"len($.HWAddr)=6": "ofp_port.hw_addr OFP_ETH_ALEN = 6", "len($.Name)=16": "ofp_port.name OFP_MAX_PORT_NAME_LEN = 16"},
-	"openflow13.PortStatus":      {"len($.Desc.HWAddr)=6": "ofp_port.hw_addr", "len($.Desc.Name)=16": "ofp_port.name"},
-	"openflow13.SwitchFeatures":  {"len($.DPID)=8": "datapath_id is 64 bits", "len($.Ports[*].HWAddr)=6": "ofp_port.hw_addr", "len($.Ports[*].Name)=16": "ofp_port.name"},
-	"openflow13.TableStats":      {"len($.Name)=32": "OFP_MAX_TABLE_NAME_LEN = 32"},
-	"protocol.ARP":               {"val($.HWLength)=6": "Ethernet hardware addresses", "val($.ProtoLength)=4": "IPv4 protocol addresses"},
-	"protocol.Ethernet":          {"len($.HWDst)=6": "Ethernet address", "len($.HWSrc)=6": "Ethernet address"},
+	"openflow13.PhyPort":        {"len($.HWAddr)=6": "ofp_port.hw_addr OFP_ETH_ALEN = 6", "len($.Name)=16": "ofp_port.name OFP_MAX_PORT_NAME_LEN = 16"},
+	"openflow13.PortStatus":     {"len($.Desc.HWAddr)=6": "ofp_port.hw_addr", "len($.Desc.Name)=16": "ofp_port.name"},
+	"openflow13.SwitchFeatures": {"len($.DPID)=8": "datapath_id is 64 bits", "len($.Ports[*].HWAddr)=6": "ofp_port.hw_addr", "len($.Ports[*].Name)=16": "ofp_port.name"},
+	"openflow13.TableStats":     {"len($.Name)=32": "OFP_MAX_TABLE_NAME_LEN = 32"},
+	"protocol.ARP":              {"val($.HWLength)=6": "Ethernet hardware addresses", "val($.ProtoLength)=4": "IPv4 protocol addresses"},
+	"protocol.Ethernet":         {"len($.HWDst)=6": "Ethernet address", "len($.HWSrc)=6": "Ethernet address"},
+	"protocol.DHCP": {"len($.ClientIP)=4": "ciaddr is a 4-octet field (RFC 2131 §2); NewDHCP allocates 4", "len($.YourIP)=4": "yiaddr, 4 octets", "len($.ServerIP)=4": "siaddr, 4 octets",
+		"len($.GatewayIP)=4": "giaddr, 4 octets", "len($.ClientHWAddr)=16": "chaddr is a 16-octet field; NewDHCP allocates 16"},
 	"protocol.IGMPv3Query":       {"val($.NumberOfSources)=len($.SourceAddresses)": "count field of the source list (declared-length premise)"},
 	"protocol.IGMPv3GroupRecord": {"val($.NumberOfSources)=len($.SourceAddresses)": "count field of the source list (declared-length premise)"},
 }
